@@ -318,6 +318,12 @@ COLD_SOURCE = """def 0 for actor ACTOR_X {
     hold;
 }
 macro m($p) { f($p); if ($C > 2) { return; } g(); }
+def 1 {
+    if ($Q == 1) { jump @inside; }
+    forever { g(); §inside; h(); if (debug) { break_loop; } }
+    while ($W < 3) { i(); for ($I = 0; $I < 2; $I += 1;) { j(); } }
+    end;
+}
 coro CO { ~m(4); $Z += 1; dungeon_mode(3) = 1; end; }
 """
 
